@@ -66,18 +66,34 @@ class Ctx:
         self.notes: list[str] = []
         self.floors: dict[str, tuple[int, int]] = {}  # rule -> (found, floor)
         self._cfgs: dict[str, CFG] = {}
+        self._inl: dict = {}
+        self.keep_names: frozenset = frozenset()  # helpers the rule module names itself: never inlined
         self.current_rule = ""
         self.rule_doc: dict[str, str] = {}
 
     # -- engines
     def cfg(self, f: FuncInfo, all_raise: bool = False) -> CFG:
-        key = f.qual + ("#all_raise" if all_raise else "")
+        key = getattr(f, "ckey", f.qual) + ("#all_raise" if all_raise else "")
         if key not in self._cfgs:
             self._cfgs[key] = CFG(f.node, all_raise=all_raise)
         return self._cfgs[key]
 
-    def func(self, qual: str) -> FuncInfo:
+    def func(self, qual: str, raw: bool = False) -> FuncInfo:
         return self.repo.func(qual)
+
+    def inl(self, f, keep=(), policy=None, depth: int = 3) -> FuncInfo:
+        """``f`` (FuncInfo or qualified name) with its private helpers inlined (sa/inline.py)."""
+        from .inline import default_policy, inline
+
+        if isinstance(f, str):
+            f = self.repo.func(f)
+        key = (f.qual, tuple(sorted(keep)), policy, depth)
+        if key not in self._inl:
+            self._inl[key] = inline(self.R, f, policy or default_policy, depth, keep)
+            g = self._inl[key]
+            for q in getattr(g, "inlined", []):
+                self.repo.consulted.add(self.repo.funcs[q].module.relpath)
+        return self._inl[key]
 
     def cls(self, qual: str) -> ClassInfo:
         return self.repo.cls(qual)
@@ -107,6 +123,9 @@ class Ctx:
             )
         if node is not None:
             line = getattr(node, "lineno", line) or line
+            org = getattr(node, "_origin", None)  # node spliced in from a helper (sa/inline.py)
+            if org is not None:
+                file = org.file
         text = norm(node) if node is not None else ""
         if len(text) > 600:
             text = text[:600]
@@ -173,6 +192,16 @@ def load_prop(prop: str):
 
 
 def run_rules(mod, ctx: Ctx, only: Optional[set[str]] = None) -> None:
+    ctx.keep_names = helper_names_in(mod, ctx.repo)
+    if os.environ.get("SA_NO_INLINE") != "1" and not getattr(ctx.repo, "_normalised", False):
+        from .inline import normalise_repo
+
+        rep = normalise_repo(ctx.repo, ctx.keep_names)
+        ctx.repo._normalised = True
+        ctx.R = Resolver(ctx.repo)
+        ctx.normalisation = rep
+        if rep["inlined"]:
+            ctx.note("helper inlining (sa/inline.py): " + str(sum(len(v) for v in rep["inlined"].values())) + " private helper calls inlined into " + str(len(rep["inlined"])) + " functions; absorbed helpers: " + str(len(rep["absorbed"])))
     for fn in mod.RULES:
         rid = f"{ctx.prop}.{fn.__name__.split('_')[0].upper()}"
         if only and rid not in only:
@@ -211,6 +240,23 @@ def run_fixtures(mod, prop: str, tier: str) -> list[str]:
                 continue
             problems.append(f"fixture {spec['dir']} for {rule_name}: {exc}")
     return problems
+
+
+def helper_names_in(mod, repo) -> frozenset:
+    """Private repository functions that the rule module mentions by name are anchors of their
+    own: they are analysed where they stand instead of being inlined into their callers."""
+    import re
+
+    files = {mod.__file__}
+    for v in vars(mod).values():  # rule functions borrowed from sibling property modules
+        m2 = sys.modules.get(getattr(v, "__module__", "") or "")
+        if m2 is not None and getattr(m2, "__name__", "").startswith("props.") and getattr(m2, "__file__", None):
+            files.add(m2.__file__)
+    words = set()
+    for fl in files:
+        words |= set(re.findall(r"\b_[A-Za-z0-9_]+\b", Path(fl).read_text()))
+    names = {f.name for f in repo.funcs.values()}
+    return frozenset(words & names)
 
 
 def evaluate(prop: str, repo_root: str, tier: str, only: Optional[set[str]] = None):
